@@ -1386,3 +1386,28 @@ def S(expr, world, B=None, side=None, gateaux=None, strict=True):
             arr = r.arr
     B.check_finite(arr, "result")
     return Result(J.fix(arr), r.rank, r.fi, set(B.flags), B.maxabs)
+
+
+_BY_DEFINITION = {"grad": "Grad", "div": "Div", "curl": "Curl", "rot": "Curl", "nabla_grad": "NablaGrad", "nabla_div": "NablaDiv"}
+
+
+class _Application:
+    """An operator applied to operand expressions that was never built as a UFL node (the constructor may fold it away)."""
+
+    def __init__(self, operands):
+        self.ufl_operands = tuple(operands)
+
+
+def S_apply(opname, operands, world, B=None, side=None):
+    """Value of `opname(*operands)` BY DEFINITION: the operand expressions are evaluated as they are, the operator itself
+    is applied by the interpreter (derivative operators: jets of the operand), so nothing the UFL constructor does when the
+    node is built (folding grad(x) to the identity, ...) enters the expected value."""
+    B = B or CB
+    B.reset()
+    ctx = Ctx(world, B, (), side)
+    h = _HANDLERS[_BY_DEFINITION[opname]]
+    with np.errstate(all="ignore"):
+        r = h(_Application(operands), ctx)
+    arr = J.fix(r.arr)
+    B.check_finite(arr, "result")
+    return Result(arr, r.rank, r.fi, set(B.flags), B.maxabs)
